@@ -259,6 +259,23 @@ def rand_worker(arg: tuple) -> dict:
     return res
 
 
+def final_coverage_zero(res: dict) -> list:
+    """Actions never taken according to the LAST coverage snapshot of a TLC run (run_tlc's `coverage_zero`
+    also counts the intermediate snapshots TLC prints every minute, where late actions still show 0)."""
+    import re as _re
+
+    out = res.get("out", "")
+    k = out.rfind("The coverage statistics at")
+    if k < 0:
+        return sorted(res.get("coverage_zero") or [])
+    zero = []
+    for line in out[k:].splitlines():
+        m = _re.match(r"^<(\w+) line \d+, col \d+ to line \d+, col \d+ of module \w+>: (\d+):(\d+)", line.strip())
+        if m and int(m.group(3)) == 0:
+            zero.append(m.group(1))
+    return sorted(set(zero))
+
+
 # ------------------------------------------------------------------------------------------- driver
 def parse_probes(out: str) -> list:
     items = []
@@ -336,12 +353,13 @@ def run(ctx: Ctx) -> None:
     model_bad = []
     never = None          # actions taken in NO configuration (each configuration switches one operator off by design)
     for j, res in zip(jobs, results):
+        res["coverage_zero"] = final_coverage_zero(res)
         ctx.add_tlc(res)
         ctx.log(f"TLC {j[0]}: {res.get('distinct')} states, {res['wall_s']} s, violated={res['violated']}")
         if res["violated"]:
             model_bad.append((j[0], res["violated"]))
             continue
-        never = set(res.get("coverage_zero") or []) if never is None else never & set(res.get("coverage_zero") or [])
+        never = set(final_coverage_zero(res)) if never is None else never & set(final_coverage_zero(res))
         p = parse_probes(res["out"])
         if not p:
             raise MachineryError(f"no probes printed by TLC for {j[0]}")
